@@ -620,6 +620,166 @@ func runC05(c *Ctx) {
 			}
 		}
 	}
+	// ---------- C05.e ----------
+	c.clause("C05.e", "T5+T9", "hardlink targets are normalised the same way in both stores: every use of TOCEntry.LinkName as a lookup key goes through cleanEntryName (directly or as the first action of the callee)", 2)
+	cleanOnly := func(p *ssa.Parameter) bool {
+		// every use of the parameter is cleanEntryName(p) (or formatting for an error message)
+		if p.Referrers() == nil {
+			return false
+		}
+		n := 0
+		for _, r := range *p.Referrers() {
+			switch x := r.(type) {
+			case *ssa.Call:
+				if t := x.Call.StaticCallee(); t != nil && t.Name() == "cleanEntryName" {
+					n++
+					continue
+				}
+				return false
+			case *ssa.MakeInterface:
+				continue // error message
+			case *ssa.DebugRef:
+				continue
+			case *ssa.Store:
+				// spilled to a cell that is immediately overwritten by the cleaned value: treat the cell's loads
+				if a, ok := x.Addr.(*ssa.Alloc); ok {
+					for _, ar := range *a.Referrers() {
+						if ld, ok := ar.(*ssa.UnOp); ok {
+							for _, lr := range *ld.Referrers() {
+								if ci, ok := lr.(*ssa.Call); ok {
+									if t := ci.Call.StaticCallee(); t != nil && t.Name() == "cleanEntryName" {
+										n++
+										continue
+									}
+								}
+								if _, ok := lr.(*ssa.MakeInterface); ok {
+									continue
+								}
+								// a load after the variable was reassigned to the cleaned value is fine: check reaching values
+								okAll := true
+								for _, rv := range reachingVals(ld) {
+									if rv == ssa.Value(p) {
+										okAll = false
+									}
+								}
+								if !okAll {
+									return false
+								}
+							}
+						}
+					}
+					continue
+				}
+				return false
+			default:
+				return false
+			}
+		}
+		return n > 0
+	}
+	nLink := 0
+	for _, pk := range []string{"estargz", dbp} {
+		for _, f := range c.pkgFuncs(pk) {
+			eachInstr(f, func(i ssa.Instruction) {
+				ld, ok := i.(*ssa.UnOp)
+				if !ok || ld.Op != token.MUL {
+					return
+				}
+				fa, ok := ld.X.(*ssa.FieldAddr)
+				if !ok || typeQName(fa.X.Type()) != tocT || fieldName(fa) != "LinkName" {
+					return
+				}
+				for _, r := range *ld.Referrers() {
+					switch x := r.(type) {
+					case *ssa.Call:
+						t := x.Call.StaticCallee()
+						key := c.fnKey(f) + ":LinkName→" + calleeID(x)
+						if t != nil && t.Name() == "cleanEntryName" {
+							nLink++
+							c.ok(key, x.Pos(), "link name cleaned at the use site")
+							continue
+						}
+						if t != nil && t.Blocks != nil && isFirstParty(t.Pkg.Pkg.Path()) {
+							idx := -1
+							for ai, a := range x.Call.Args {
+								if a == ssa.Value(ld) {
+									idx = ai
+								}
+							}
+							if idx >= 0 && idx < len(t.Params) {
+								nLink++
+								c.verdict(key, x.Pos(), cleanOnly(t.Params[idx]), "callee normalises the name before using it", "the raw TOC link name is used as a lookup key without cleanEntryName: names like ./x or a//b resolve in one store and not in the other")
+							}
+						}
+					}
+				}
+			})
+		}
+	}
+	if nLink < 2 {
+		c.bad("LinkName-lookups", token.NoPos, "hardlink lookups by link name not found in both stores")
+	}
+
+	// ---------- C05.f ----------
+	c.clause("C05.f", "T1", "a reader derived from another DB reader (fresh init group, same filesystem bucket) is created only after the original's background initialisation completed", 1)
+	for _, f := range c.pkgFuncs(dbp) {
+		if c.fnKey(enclosingRoot(f)) == dbp+".NewReader" {
+			continue
+		}
+		eachInstr(f, func(i ssa.Instruction) {
+			al, ok := i.(*ssa.Alloc)
+			if !ok || typeQName(al.Type()) != rd || al.Comment != "complit" {
+				return
+			}
+			waits := callsIn(f, idIs(dbp+".(*reader).waitInit"))
+			var se []edge
+			for _, w := range waits {
+				se = append(se, successEdges(f, w)...)
+			}
+			okp, _ := mustPass(f, al, newCuts().addEdges(se))
+			c.verdict(c.fnKey(f)+":derived-reader-after-init", al.Pos(), okp && len(se) > 0, "derived reader created only after waitInit() succeeded", "a reader sharing the filesystem bucket is created without waiting for the background TOC import: it serves an incomplete tree")
+		})
+	}
+	// view/update wait before touching the DB
+	for _, nm := range []string{"(*reader).view", "(*reader).update"} {
+		if f := c.mustFn(dbp, nm); f != nil {
+			waits := callsIn(f, idIs(dbp+".(*reader).waitInit"))
+			var se []edge
+			for _, w := range waits {
+				se = append(se, successEdges(f, w)...)
+			}
+			for _, ci := range callsIn(f, func(id string, _ ssa.CallInstruction) bool {
+				return strings.HasSuffix(id, "bbolt.(*DB).View") || strings.HasSuffix(id, "bbolt.(*DB).Batch") || strings.HasSuffix(id, "bbolt.(*DB).Update")
+			}) {
+				okp, _ := mustPass(f, ci, newCuts().addEdges(se))
+				c.verdict(c.fnKey(f)+":wait-before-db", ci.Pos(), okp && len(se) > 0, "DB accessed only after initialisation completed", "DB accessed before the background initialisation completed")
+			}
+		}
+	}
+
+	// ---------- C05.g ----------
+	c.clause("C05.g", "T1", "chunks read back from the (varint-keyed, not order-preserving) extra bucket are sorted by chunk offset before sizes are derived from neighbours", 1)
+	if f := c.mustFn(dbp, "readChunks"); f != nil {
+		fe := callsIn(f, func(id string, _ ssa.CallInstruction) bool { return strings.HasSuffix(id, "bbolt.(*Bucket).ForEach") })
+		sorts := callsIn(f, idIs("sort.Slice", "sort.SliceStable", "slices.SortFunc"))
+		var sizeStores []ssa.Instruction
+		eachInstr(f, func(i ssa.Instruction) {
+			if st, ok := i.(*ssa.Store); ok {
+				if fa, ok := st.Addr.(*ssa.FieldAddr); ok && typeQName(fa.X.Type()) == dbp+".chunkEntry" && fieldName(fa) == "chunkSize" {
+					sizeStores = append(sizeStores, i)
+				}
+			}
+		})
+		good := len(fe) > 0 && len(sizeStores) > 0
+		for _, x := range fe {
+			for _, st := range sizeStores {
+				if got, _ := reach(f, x, isInstr(st), newCuts().addCalls(sorts)); got != nil {
+					good = false
+				}
+			}
+		}
+		c.verdict(c.fnKey(f)+":sorted-before-sizes", f.Pos(), good, "sort by chunk offset between the bucket scan and the size derivation", "chunk sizes are derived from neighbours in bucket-iteration order, which is not chunk-offset order for varint keys: chunk boundaries differ from the memory store")
+	}
 	c.assume("bolt transactions are isolated; json.Decoder reads through the TeeReader only")
 }
 
